@@ -127,7 +127,7 @@ CHECKS = {
              "is rendered in four trivia styles and resolved by the real resolve(): error class or complete binding table (every "
              "Variable's definition mapped back through the source map) must equal the specification's; for members the real compiler "
              "accepts, marker properties in the evaluated document show that evaluation used the value of the chosen binder. Added since: use sites after a rec, uses placed after the declarations, module g importing h under the same qualifier; every accepted member's evaluated document is compared with Den.tla's denotation (oracle mode); the DynScope family (caller binder named like a callee parameter); seeded random composites with shadowing, binding tables from ResolveMC.tla in oracle mode.",
-        note="Trusted: TLC, renderer and source map (cross-checked by tree2ast), hook H2. Two unqualified imports of the same name are outside the domain.",
+        note="Trusted: TLC, renderer and source map (cross-checked by tree2ast), hook H2. Two unqualified imports of the same name are outside the domain. One open known finding: the same @name declared in two modules shares one component.",
         technique="TLA+ state machine of name resolution vs declarative binding relation (TLC, Scopes family) + spec->impl replay comparing complete binding tables and evaluated markers",
     ),
     "C17": dict(
@@ -186,7 +186,7 @@ CHECKS = {
              "of the pairs, of every accepted member of the position/shape families, recursion shapes, corpus, determinism programs, and "
              "of documents merged with a base - for $ref closure, path variable/parameter bijection, response keys, unique "
              "operationIds; YAML round-trip equality is evaluated on the OpenAPI object model. Added since: documents of the Uris/Xfers/Ranges/Schemas/RecInst families and of seeded random composites are validated too, whatever outcome the specification predicts; round-trip equality is judged on documents (JSON), not on Rust values.",
-        note="Trusted: TLC, renderer, the Python validator. One genuine defect (synthesized operationIds collide) is a recorded known finding.",
+        note="Trusted: TLC, renderer, the Python validator. One genuine defect (synthesized operationIds collide) is a recorded known finding, recognised by Emit.tla's own prediction of the colliding pairs - a collision the model does not predict is a violation.",
         technique="TLA+ model of reference inlining/registration, path keys and operationId synthesis (TLC over URI pairs) + independent structural validation of every emitted document",
     ),
     "C05": dict(
